@@ -708,6 +708,10 @@ def check(ctx):
     ctx.rule("R10", "at most the CONFIGURED number of requests: the status-block request builders and the structures read the retry budget and the timeout when a request is made, not in a parameter default (evaluated once, at import) (C06.R9's rule on the transfer's own modules)")
     from .c17 import config_read_at_definition as _crad1
     _crad1(ctx, repo, "R10", only_mods=("/driver/protocol/statusblock.py", "/driver/spastruct.py", "/driver/async_spastruct.py"))
+    ctx.rule("R11", "the install is an exact splice: on both structure classes, built by their constructors, replace_status_block_segment leaves a block of the same length whose bytes are the new ones inside the installed range and the old ones outside - for ranges at the start, in the middle, at the VERY END and of the whole block (C03.R1's interpreted scenarios borrowed)")
+    from .c03 import swap_then_notify as _stn1
+    for _c in ("GeckoStructure", "GeckoAsyncStructure"):
+        _stn1(ctx.borrowed("R11", "C03", key_contains="::splice::"), repo, _c)
     async_assembly(ctx, repo)
     # the completed assembler keeps its segment list until the engine's clean-up removes the handler: the engine must
     # not dispatch a second datagram before that (engine model, vlib/enginemodel.py)
